@@ -17,6 +17,8 @@ false alarm):
   * a renderable that emits no trailing newline (``ProgressBar``, or a pass-through wrapper around it)
     is never followed by another renderable inside a ``RenderGroup`` (it would be concatenated on one
     line by design);
+  * ``__rich__`` (the ``Cast`` wrapper, C09 only) returns a renderable or a str, never another castable object
+    (that is what the ``RichCast`` protocol promises; rich casts once);
   * ``Text.overflow`` is never ``"ignore"`` (an explicit opt-out of the width bound), no tab characters;
   * ``leading`` is 0 or 1 in the main pool; ``leading >= 2`` lives in its own small pool (DESIGN §9 #12);
   * column ``ratio`` is None or 1..3 in the main pool; ``ratio=0`` (accepted by the API, "flexible" with no share)
